@@ -1117,10 +1117,16 @@ class Authenticated(BaseClientHandler):
                 if attrs & SPECIAL_USE_ATTR_VALUES
             ]
 
-        # Build a set of all returned folder names so we can verify
-        # \HasChildren / \HasNoChildren correctness.
+        # Build a set of all folder names so we can verify
+        # \HasChildren / \HasNoChildren correctness. NOTE: All folders, not
+        # just the returned ones: with a pattern like "%" the children of a
+        # returned folder are not part of the results.
         #
         all_names = {name for name, _, _ in results}
+        async for row in self.server.db.query(
+            "SELECT name FROM mailboxes WHERE attributes NOT LIKE '%ignored%'"
+        ):
+            all_names.add(row[0])
         for mbox_name, attributes, child_info in results:
             has_children = any(n.startswith(mbox_name + "/") for n in all_names)
             if has_children:
